@@ -35,7 +35,7 @@ class AigerBinWriteUnit(AigerWriteUnit):
     int_literal_default = "usize"      # `let mut len = 0;` indexes an array
     skip = {
         "new": "struct literal `Self { writer, code: 0, codec }`: the initial state `{ writer, code := 0 }`",
-        "write_ordered_aig": "whole-file driver over `OrderedAig<L>` (vectors, nested loops); modelled by "
+        "write_ordered_aig": "translated by the units `aigerwritedoc` / `aigerbinwritedoc`, not here: whole-file driver over `OrderedAig<L>` (vectors, nested loops); modelled by "
                              "`Aiger.binWriteOrderedAig` as the sequence of the pieces tied here",
     }
     fuel = {"write_header": "fields.length + 1", "write_binary_uint": "bytes.length + 1"}
